@@ -2,6 +2,7 @@
 from __future__ import annotations
 
 import ast
+import re
 from collections.abc import Iterable, Mapping
 
 from ..loader import AnalysisError, dotted, norm, walk_no_defs
@@ -527,16 +528,59 @@ def r7_generated_model_classes(a, tier):
         rep.add({'rule_type': list(map(repr, params)), 'class_chain': got, 'want': want, 'ok': ok})
         if not ok:
             rep.fail(specs_fn.qualname, f'model-specs:{params!r}', f'a rule typed {params!r} gives the class chain {got}; required {want}', specs_fn.loc)
-    out: list = []
-    me = Stub(GEN, basetype=object, name='M', print=Hook(lambda *x, **k: out.append(' '.join(str(y) for y in x))), indent=Hook(lambda *x, **k: _NullCM()))
-    rule = Stub('tatsu.peg.base.Rule', name='r', params=('D::B1',), defines_single=['a', 'class'], defines_list=['b'])
+    import builtins as _bi
+
+    class _Base:
+        _verif_standin = True
+    _Base.__name__ = 'Node'
+
+    def _topsort(nodes, edges):
+        nodes, edges, res = list(nodes), set(edges), []
+        while nodes:
+            free = [n for n in nodes if not any(m == n and x in nodes for (x, m) in edges)] or [nodes[0]]
+            res.append(free[0])
+            nodes.remove(free[0])
+        return res
+
+    def generate(rules):
+        """generate_model, interpreted on a stand-in grammar: the emitted lines"""
+        lines_: list = []
+        gram = Stub('tatsu.peg.base.Grammar', name='G', rules=rules, rulemap={r._attrs['name']: r for r in rules})
+        gen = Stub(GEN, basetype=_Base, name='M', print=Hook(lambda *x, **k: lines_.append(' '.join(str(y) for y in x))), indent=Hook(lambda *x, **k: _NullCM()),
+                   printed_text=Hook(lambda: '\n'.join(lines_)))
+        it_ = ModelInterp(a, {'safe_name': Hook(lambda s_, *x: s_ + '_' if s_ in ('class', 'def', 'items') else s_), 'BaseClassSpec': Hook(spec_hook), 'HEADER': '',
+                              'topsort': Hook(_topsort), 'vars': Hook(lambda o: vars(_bi)), 'builtins': _bi})
+        try:
+            it_.call_bound(Bound(gen, a.ct.lookup(GEN, 'generate_model')), [gram], {})
+        except Unsupported as e:
+            raise AnalysisError(f'C07.R7: cannot interpret generate_model: {e}') from e
+        return lines_
+
+    def mkrule(name, params, single=(), lst=()):
+        return Stub('tatsu.peg.base.Rule', name=name, params=params, defines_single=list(single), defines_list=list(lst))
+    # the declared chains of several rules together: a class keeps the base some rule declared for it, wherever else it is mentioned
+    chain_cases = [
+        ('the head of a chain mentioned later as a base (X::Y::Z, then W::X)', [('r1', 'X::Y::Z'), ('r2', 'W::X')], {'X': 'Y', 'Y': 'Z', 'Z': 'ModelBase', 'W': 'X'}),
+        ('an inner class of a chain ending another chain later (A::B::C, then D::B)', [('r1', 'A::B::C'), ('r2', 'D::B')], {'A': 'B', 'B': 'C', 'C': 'ModelBase', 'D': 'B'}),
+        ('the short chain first (D::B, then A::B::C)', [('r1', 'D::B'), ('r2', 'A::B::C')], {'A': 'B', 'B': 'C', 'C': 'ModelBase', 'D': 'B'}),
+        ('two rules of one class (A::B twice)', [('r1', 'A::B'), ('r2', 'A::B')], {'A': 'B', 'B': 'ModelBase'}),
+    ]
+    gm = a.ct.lookup(GEN, 'generate_model')
+    for what, rs, want in chain_cases:
+        ls = generate([mkrule(n, (t,), ['f']) for n, t in rs])
+        got = {}
+        for ln in ls:
+            mm = re.match(r'\s*class (\w+)\((\w+)\):', ln)
+            if mm and mm.group(1) in want:
+                got[mm.group(1)] = mm.group(2)
+        ok = got == want
+        rep.add({'rule_types': [t for _, t in rs], 'emitted_bases': got, 'want': want, 'ok': ok})
+        if not ok:
+            rep.fail(gm.qualname, f'model-chain:{[t for _, t in rs]}', f'{what}: the generated module declares {got}; required {want} - the builder synthesizes the class with the declared base, '
+                     f'so isinstance tests and walkers keyed on the base see another tree with the generated classes', gm.loc)
+    out = [ln for ln in generate([mkrule('r', ('D::B1',), ['a', 'class'], ['b'])]) if '\n' not in ln]  # without the module preamble (one multi-line print)
     grc = a.ct.lookup(GEN, '_gen_rule_class')
     gbc = a.ct.lookup(GEN, '_gen_base_class')
-    try:
-        interp().call_bound(Bound(me, grc), [rule, [Obj(class_name='D', base='B1')]], {})
-        interp().call_bound(Bound(me, gbc), ['B1', 'ModelBase'], {})
-    except Unsupported as e:
-        raise AnalysisError(f'C07.R7: cannot interpret the class emitters: {e}') from e
     text = textwrap.dedent('\n'.join(out))
     # the recorded lines have no indentation (indent() is a stand-in): rebuild it for the parser
     lines = []
